@@ -593,10 +593,11 @@ impl Engine for C15 {
         match (&exp.ending, &ending) {
             (None, None) => {}
             (Some(kinds), Some(e)) => {
-                let either = ["Process execution denied", "Invalid process configuration"];
-                let ok = kinds.contains(&e.as_str())
-                    // forbidden by policy and invalid at once: the statement does not order the two
-                    || (either.contains(&kinds[0]) && either.contains(&e.as_str()) && !case["allow"].as_bool().unwrap());
+                // a refusal must be *a* process runtime error before anything is spawned; which of the
+                // refusal diagnostics it is (policy or configuration; both apply at once sometimes) is not
+                // part of the statement. An injected spawn failure must surface as the spawn error.
+                let refusals = ["Process execution denied", "Invalid process configuration"];
+                let ok = kinds.contains(&e.as_str()) || (refusals.contains(&kinds[0]) && refusals.contains(&e.as_str()));
                 if !ok {
                     return res.violation("wrong-refusal", format!("script ended with `{e}`, expected one of {kinds:?}"));
                 }
